@@ -66,7 +66,8 @@ def run_ndl(prop, tier, seed, out):
     if prop == "C19":
         rp = os.path.join(d, "ndl-run.ndjson")
         rargs = ["ndl-run", "--in", cp, "--out", rp, "--dir", tmp]
-        hv_resumable(HV_SIM, rargs, len(cases))
+        # (no description of the family crashes the unchanged generator; a changed one that crashes a third of 2388 runs would cost 40 minutes of restarts)
+        hv_resumable(HV_SIM, rargs, len(cases), max_restarts=60)
         judge(out, prop, rp, rargs)
         log("  %d valid descriptions built and run: exit status and messages on the network judged" % len(cases))
     out.cov["samples"] += [{"tree": cases[0]["tree"], "text": cases[0]["texts"][1]["text"], "mutant": cases[0]["mutants"][0]}]
